@@ -146,3 +146,36 @@ func TestReplay_C16_ConcurrentStartStop(t *testing.T) {
 	}
 	hm.StopHeartbeat()
 }
+
+// Replay for frame#H:uint64 of StopHeartbeat / StartHeartbeat (C16): stopping or restarting the heartbeat never writes
+// the counter, so the counter carried by the refreshed data keeps increasing across a stop and a restart.
+func TestReplay_C16_CounterMonotoneAcrossStopAndStart(t *testing.T) {
+	period := 200 * time.Millisecond
+	_, e, f := rpHeartbeatEntity(t, period)
+	f.AddFunctionType(model.FunctionTypeDeviceDiagnosisHeartbeatData, true, false)
+	wait := func(min uint64) uint64 {
+		deadline := time.Now().Add(10 * period)
+		for time.Now().Before(deadline) {
+			if c := rpHeartbeatCounter(f); c >= min {
+				return c
+			}
+			time.Sleep(5 * time.Millisecond)
+		}
+		t.Fatalf("counter did not reach %d", min)
+		return 0
+	}
+	before := wait(3)
+	e.HeartbeatManager().StopHeartbeat()
+	time.Sleep(period / 2)
+	before = rpHeartbeatCounter(f)
+	_ = e.HeartbeatManager().StartHeartbeat()
+	deadline := time.Now().Add(3 * period)
+	for time.Now().Before(deadline) {
+		if c := rpHeartbeatCounter(f); c < before {
+			e.HeartbeatManager().StopHeartbeat()
+			t.Fatalf("C16 violated: after stop and start the heartbeat counter went from %d back to %d", before, c)
+		}
+		time.Sleep(5 * time.Millisecond)
+	}
+	e.HeartbeatManager().StopHeartbeat()
+}
